@@ -31,10 +31,14 @@ def funcs : List (String × String) := [
   ("internal/modify/dkim/dkim.go:state.RewriteSender", "d6824a9018ee0cc5"),
   ("internal/modify/dkim/dkim.go:type Modifier", "04de41e83d1b8da0"),
   ("internal/modify/dkim/dkim.go:type state", "3d2bb0e949fe8ad4"),
+  ("internal/modify/dkim/keys.go:Modifier.generateAndWrite", "3d2c304cf528f0f6"),
+  ("internal/modify/dkim/keys.go:Modifier.loadOrGenerateKey", "12ca03277ca8bcee"),
+  ("internal/modify/dkim/keys.go:writeDNSRecord", "23009cb2bd1a56f6"),
   ("internal/smtpconn/smtpconn.go:C.Close", "4f893ccbc167de7b"),
   ("internal/smtpconn/smtpconn.go:C.Data", "e530fddde562e053"),
   ("internal/smtpconn/smtpconn.go:C.DirectClose", "f652edadea641d3f"),
   ("internal/smtpconn/smtpconn.go:C.LMTPData", "e179f60ed562690a"),
+  ("internal/smtpconn/smtpconn.go:C.smtpToLMTPData", "d776cd69ea79c3d5"),
   ("internal/smtpconn/smtpconn.go:C.trackData", "b9490563e28a5c19"),
   ("internal/smtpconn/smtpconn.go:dataWriter.Close", "6d375401e5e39722"),
   ("internal/target/queue/queue.go:Queue.openMessage", "e860a325c84bd4f8"),
